@@ -37,6 +37,8 @@ function fx() return bytes is begin return raw(2, 65); end;
 function fnx() return bytes is begin return raw(); end;
 ti = tab(1, 5); tin = tab(1, int()); td = tab(1, 2.5); tdn = tab(1, num()); ts = tab(1, "abc"); tsn = tab(1, str());
 ri = tup(5, 2.5, "abc"); rin = tup(int(), num(), str());
+vr = false; vr:boolean; vq:boolean; vir = 7; vir:integer; vsr = "zz"; vsr:string;
+tt = tab(2, 1); ttn = tab(); tt2 = tab(1, tab(1, 1));
 """
 
 # (text, value, provenance)  value: True/False/None ; typed: whether a null carries the boolean type
@@ -45,21 +47,27 @@ BOOLS = [
     ("false", False, "const"), ("off", False, "const"), ("bool(0)", False, "ctor"), ("vf", False, "var"), ("of", False, "opaque"), ("ff()", False, "func"), ("tb.at(1)", False, "elem"), ("rt@2", False, "item"),
     ("null", None, "const-untyped"), ("bool()", None, "ctor-typed"), ("vn", None, "var-typed"), ("un", None, "var-untyped"), ("ou", None, "opaque-untyped"),
     ("oub", None, "opaque-typed"), ("fn()", None, "func-untyped"), ("fnb()", None, "func-typed"), ("tn.at(0)", None, "elem-typed"), ("rn@1", None, "item-typed"),
+    ("vr", None, "var-typed-redeclared"), ("vq", None, "var-typed-declared"),
 ]
 
 REL_OPERANDS = {
     "bool": {"vals": [("true", "const"), ("vf", "var"), ("ft()", "func"), ("tb.at(1)", "elem"), ("rt@1", "item"), ("ot", "opaque")],
-             "nulls": [("bool()", "ctor-typed"), ("vn", "var-typed"), ("fnb()", "func-typed"), ("tn.at(0)", "elem-typed"), ("rn@1", "item-typed"), ("oub", "opaque-typed")]},
+             "nulls": [("bool()", "ctor-typed"), ("vn", "var-typed"), ("fnb()", "func-typed"), ("tn.at(0)", "elem-typed"), ("rn@1", "item-typed"), ("oub", "opaque-typed"), ("vr", "var-typed-redeclared")]},
     "int": {"vals": [("5", "const"), ("7", "const"), ("vi", "var"), ("fi()", "func"), ("ti.at(0)", "elem"), ("ri@1", "item")],
-            "nulls": [("int()", "ctor-typed"), ("vin", "var-typed"), ("fni()", "func-typed"), ("tin.at(0)", "elem-typed"), ("rin@1", "item-typed")]},
+            "nulls": [("int()", "ctor-typed"), ("vin", "var-typed"), ("fni()", "func-typed"), ("tin.at(0)", "elem-typed"), ("rin@1", "item-typed"), ("vir", "var-typed-redeclared")]},
     "dec": {"vals": [("2.5", "const"), ("1e3", "const"), ("vd", "var"), ("fd()", "func"), ("td.at(0)", "elem"), ("ri@2", "item")],
             "nulls": [("num()", "ctor-typed"), ("vdn", "var-typed"), ("fnd()", "func-typed"), ("tdn.at(0)", "elem-typed"), ("rin@2", "item-typed")]},
     "str": {"vals": [('"abc"', "const"), ('""', "const"), ("vs", "var"), ("fs()", "func"), ("ts.at(0)", "elem"), ("ri@3", "item")],
-            "nulls": [("str()", "ctor-typed"), ("vsn", "var-typed"), ("fns()", "func-typed"), ("tsn.at(0)", "elem-typed"), ("rin@3", "item-typed")]},
+            "nulls": [("str()", "ctor-typed"), ("vsn", "var-typed"), ("fns()", "func-typed"), ("tsn.at(0)", "elem-typed"), ("rin@3", "item-typed"), ("vsr", "var-typed-redeclared")]},
     "bytes": {"vals": [("raw(2, 65)", "ctor"), ("vx", "var"), ("fx()", "func")],
               "nulls": [("raw()", "ctor-typed"), ("vxn", "var-typed"), ("fnx()", "func-typed")]},
+    "table": {"vals": [("tt", "var"), ("tab(2, 1)", "ctor"), ("tt2.at(0)", "elem"), ("tt2", "var-2dim")],
+              "nulls": [("tab()", "ctor-typed"), ("ttn", "var-typed"), ("int()", "scalar-ctor-typed"), ("vn", "scalar-var-typed"), ("bool()", "scalar-ctor-typed")]},
 }
 UNTYPED_NULLS = [("null", "const-untyped"), ("un", "var-untyped"), ("fn()", "func-untyped"), ("ou", "opaque-untyped")]
+
+SENTINELS = {"VT": "b:1", "VF": "b:0", "VN": "Zb0", "UN": "Zu0", "VR": "Zb0", "VQ": "Zb0", "VI": "i:5", "VIN": "Zi0", "VIR": "Zi0", "VD": "n:4004000000000000",
+             "VDN": "Zn0", "VS": "s:616263", "VSN": "Zs0", "VSR": "Zs0", "OT": "b:1", "OF": "b:0", "OU": "Zu0", "OUB": "Zb0", "TT": "ti1[i:1,i:1]"}
 
 LOGICAL = ["and", "&&", "or", "||", "xor"]
 UNARY = ["not", "!"]
@@ -178,6 +186,9 @@ class Sh:
                 self.res["nontrivial"].add(case_hash([op, expr, self.desc["mode"]]))
             for k in (1, 2):
                 h, pos, kw = rfields(rep[k])
+                if h != "val" and want == "nonnull":
+                    # both operands non-null: outside the statement (e.g. ordering of tables is simply not defined)
+                    bump(self.res, "nonnull_pair_runtime_errors"); return
                 if h != "val":
                     self.viol(op, lcls, rcls, "eval", "%s: evaluation #%d failed: %s" % (what, k, rep[k][:100]), full); return
                 g = obs(pos[0])
@@ -189,6 +200,9 @@ class Sh:
             if not rep[4].startswith("ok"):
                 self.viol(op, lcls, rcls, "loop", "%s: loop program failed: %s" % (what, rep[4][:120]), full); return
             d = parse_dump(rep[5])["syms"]
+            for nm, exp in SENTINELS.items():
+                if d[nm]["value"] != exp:
+                    self.viol(op, lcls, rcls, "operand-overwritten", "%s: variable %s is %s after the evaluation, was %s" % (what, nm, d[nm]["value"], exp), full); return
             for i in (1, 2, 3):
                 g = obs(d["R%d" % i]["value"])
                 if not ok(g, loopR[i - 1]):
